@@ -101,6 +101,209 @@ Proof.
   rewrite (c_matmul_cross tp x y t1 t2) by assumption. reflexivity.
 Qed.
 
+(* ------------------------------------------------------------------ impl Sum for Record
+   The transcription of the loop body (`sum_step`: the four-arm match of record_operations.rs)
+   IS the binary operator `+` of two records, so the fold is Container.each_sum (the fold C04's
+   Sum node is proved equal to in Proofs/C04S.v) whenever it completes. *)
+Lemma sum_step_is_add tp (a x : rec R) : sum_step ops tp a x = rec_binary ops tp (Addition ops) a x.
+Proof.
+  unfold sum_step, rec_binary. destruct (r_hist a) as [h|], (r_hist x) as [h2|]; cbn [same_list negb]; reflexivity.
+Qed.
+
+Lemma sum_fold_ok : forall xs tp (a : rec R) tp' z,
+  sum_fold ops tp a xs = (tp', Ok z) <-> each_sum ops tp a xs = Ok (tp', z).
+Proof.
+  induction xs as [|x xs IH]; intros tp a tp' z; cbn [sum_fold each_sum].
+  - split; intros E; inversion E; reflexivity.
+  - rewrite sum_step_is_add. destruct (rec_binary ops tp (Addition ops) a x) as [[t1 s]|e|]; [apply IH| |];
+      split; intros E; inversion E.
+Qed.
+
+(* one iteration: nothing appended and a constant total, or exactly one entry whose position is
+   the new total's index; the total takes the first history of (total, next) *)
+Lemma sum_step_cases tp (a x : rec R) t1 s : sum_step ops tp a x = Ok (t1, s) ->
+  r_hist s = first_hist (r_hist a) (r_hist x) /\ same_list (r_hist a) (r_hist x) = true /\
+  ((r_hist s = None /\ t1 = tp) \/ (r_hist s <> None /\ exists e, t1 = tp ++ [e] /\ r_idx s = length tp)).
+Proof.
+  unfold sum_step. destruct (r_hist a) as [h|], (r_hist x) as [h2|]; cbn [same_list negb first_hist append_unary append_binary].
+  - destruct (Nat.eqb h h2); cbn [negb]; [|discriminate]. intros E; inversion E; subst; cbn.
+    split; [reflexivity|]. split; [reflexivity|]. right. split; [discriminate|]. eexists. split; reflexivity.
+  - intros E; inversion E; subst; cbn. split; [reflexivity|]. split; [reflexivity|]. right. split; [discriminate|].
+    eexists. split; reflexivity.
+  - intros E; inversion E; subst; cbn. split; [reflexivity|]. split; [reflexivity|]. right. split; [discriminate|].
+    eexists. split; reflexivity.
+  - intros E; inversion E; subst; cbn. split; [reflexivity|]. split; [reflexivity|]. left. split; reflexivity.
+Qed.
+
+Lemma sum_step_no_err tp (a x : rec R) e : sum_step ops tp a x <> Err e.
+Proof.
+  unfold sum_step. destruct (r_hist a), (r_hist x); cbn [append_unary append_binary]; try discriminate.
+  destruct (negb _); discriminate.
+Qed.
+
+Lemma sum_step_cross tp (a x : rec R) t1 t2 : r_hist a = Some t1 -> r_hist x = Some t2 -> t1 <> t2 ->
+  sum_step ops tp a x = Panic.
+Proof. intros Ha Hx Hne. rewrite sum_step_is_add. eapply rec_binary_cross; eauto. Qed.
+
+Lemma sum_hist_app (xs ys : list (rec R)) : sum_hist (xs ++ ys) = first_hist (sum_hist xs) (sum_hist ys).
+Proof.
+  induction xs as [|x xs IH]; cbn [app sum_hist fold_right]; [reflexivity|].
+  fold (sum_hist (xs ++ ys)). fold (sum_hist xs). rewrite IH. destruct (r_hist x); reflexivity.
+Qed.
+
+Lemma sum_fold_app : forall xs ys tp (a : rec R),
+  sum_fold ops tp a (xs ++ ys) =
+  match sum_fold ops tp a xs with
+  | (t1, Ok s) => sum_fold ops t1 s ys
+  | other => other
+  end.
+Proof.
+  induction xs as [|x xs IH]; intros ys tp a; cbn [app sum_fold]; [reflexivity|].
+  destruct (sum_step ops tp a x) as [[t1 s]|e|]; [apply IH|reflexivity|reflexivity].
+Qed.
+
+(* what a fold appends and where its result sits: a suffix of at most one entry per summed
+   record; never an error value; a completed sum takes the first history among (total, records),
+   a constant result appended nothing, a result with a history sits at the LAST appended entry
+   (or is the untouched total when there was nothing to add) *)
+Lemma sum_fold_fresh : forall xs tp (a : rec R) tp' r, sum_fold ops tp a xs = (tp', r) ->
+  exists suf, tp' = tp ++ suf /\ length suf <= length xs /\ (forall e, r <> Err e) /\
+    forall z, r = Ok z ->
+      r_hist z = first_hist (r_hist a) (sum_hist xs) /\
+      (r_hist z = None -> suf = []) /\
+      (r_hist z <> None ->
+         (suf = [] /\ z = a) \/ (exists pre e, suf = pre ++ [e] /\ r_idx z = length tp + length pre)).
+Proof.
+  induction xs as [|x xs IH]; intros tp a tp' r; cbn [sum_fold sum_hist fold_right].
+  - intros E; inversion E; subst. exists []. rewrite app_nil_r. split; [reflexivity|]. split; [cbn; lia|].
+    split; [discriminate|]. intros z Ez; inversion Ez; subst. split; [destruct (r_hist z); reflexivity|].
+    split; [reflexivity|]. intros _. left. auto.
+  - fold (sum_hist xs). destruct (sum_step ops tp a x) as [[t1 s]|e|] eqn:Es.
+    + intros E. destruct (sum_step_cases _ _ _ _ _ Es) as (Hs & _ & Hc).
+      destruct (IH _ _ _ _ E) as (suf2 & -> & L2 & Ne & Hz).
+      destruct Hc as [[Hn ->]|[Hn (e1 & -> & Hi)]].
+      * exists suf2. split; [reflexivity|]. split; [cbn; lia|]. split; [exact Ne|]. intros z Ez.
+        destruct (Hz z Ez) as (H1 & H2 & H3). rewrite Hn in H1. rewrite Hs in Hn.
+        destruct (r_hist a); [discriminate|]. cbn [first_hist] in *. destruct (r_hist x); [discriminate|].
+        split; [exact H1|]. split; [exact H2|]. intros Hne. destruct (H3 Hne) as [[_ ->]|H4]; [|right; exact H4].
+        exfalso. apply Hne. cbn [first_hist] in Hs. exact Hs.
+      * exists (e1 :: suf2). split; [rewrite <- app_assoc; reflexivity|]. split; [cbn; lia|]. split; [exact Ne|].
+        intros z Ez. destruct (Hz z Ez) as (H1 & H2 & H3).
+        assert (Hzn : r_hist z <> None).
+        { rewrite H1. destruct (r_hist s); [discriminate|]. exfalso. apply Hn. reflexivity. }
+        split; [|split; [intros Q; contradiction|]].
+        -- rewrite H1, Hs. destruct (r_hist a), (r_hist x); reflexivity.
+        -- intros _. right. destruct (H3 Hzn) as [[-> ->]|(pre & e & -> & Hi2)].
+           ++ exists [], e1. split; [reflexivity|]. cbn. lia.
+           ++ exists (e1 :: pre), e. split; [reflexivity|]. rewrite app_length in Hi2. cbn in *. lia.
+    + intros E; inversion E; subst. exfalso. eapply sum_step_no_err; eauto.
+    + intros E; inversion E; subst. exists []. rewrite app_nil_r. split; [reflexivity|]. split; [cbn; lia|].
+      split; [discriminate|]. intros z Ez; discriminate Ez.
+Qed.
+
+(* a completed sum: every summed record (and the start value) is a constant or lives on the
+   list of the result *)
+Lemma sum_fold_ok_hists : forall xs tp (a : rec R) tp' z, sum_fold ops tp a xs = (tp', Ok z) ->
+  (r_hist a = None \/ r_hist a = r_hist z) /\ Forall (fun x => r_hist x = None \/ r_hist x = r_hist z) xs.
+Proof.
+  induction xs as [|x xs IH]; intros tp a tp' z; cbn [sum_fold].
+  - intros E; inversion E; subst. split; [right; reflexivity|constructor].
+  - destruct (sum_step ops tp a x) as [[t1 s]|e|] eqn:Es; [|intros E; inversion E|intros E; inversion E].
+    intros E. destruct (IH _ _ _ _ E) as [Hs Hr]. destruct (sum_step_cases _ _ _ _ _ Es) as (Hh & Hl & _).
+    rewrite Hh in Hs. destruct (r_hist a) as [h|] eqn:Ea, (r_hist x) as [h2|] eqn:Ex; cbn [first_hist same_list] in *.
+    + apply Nat.eqb_eq in Hl. subst h2. destruct Hs as [Hs|Hs]; [discriminate|].
+      split; [right; exact Hs|constructor; [right; rewrite Ex; exact Hs|exact Hr]].
+    + destruct Hs as [Hs|Hs]; [discriminate|]. split; [right; exact Hs|constructor; [left; exact Ex|exact Hr]].
+    + split; [left; reflexivity|constructor; [rewrite Ex; exact Hs|exact Hr]].
+    + split; [left; reflexivity|constructor; [left; exact Ex|exact Hr]].
+Qed.
+
+(* records that are constants or live on one list t: the sum completes *)
+Lemma sum_fold_same_ok t : forall xs tp (a : rec R),
+  (r_hist a = None \/ r_hist a = Some t) -> Forall (fun x => r_hist x = None \/ r_hist x = Some t) xs ->
+  exists tp' z, sum_fold ops tp a xs = (tp', Ok z).
+Proof.
+  induction xs as [|x xs IH]; intros tp a Ha Hx; cbn [sum_fold]; [eauto|].
+  inversion Hx as [|? ? Hx1 Hx2]; subst.
+  assert (Hl : same_list (r_hist a) (r_hist x) = true).
+  { destruct Ha as [-> | ->], Hx1 as [-> | ->]; cbn; try reflexivity. apply Nat.eqb_refl. }
+  destruct (sum_step ops tp a x) as [[t1 s]|e|] eqn:Es.
+  - apply IH; [|exact Hx2]. destruct (sum_step_cases _ _ _ _ _ Es) as (Hh & _ & _). rewrite Hh.
+    destruct Ha as [-> | ->], Hx1 as [-> | ->]; cbn; auto.
+  - exfalso. eapply sum_step_no_err; eauto.
+  - exfalso. revert Es. rewrite sum_step_is_add. unfold rec_binary. rewrite Hl. cbn [negb].
+    destruct (r_hist a), (r_hist x); cbn [append_unary append_binary]; discriminate.
+Qed.
+
+Lemma get_recs_app (st : state) : forall pre post,
+  get_recs st (pre ++ post) =
+  match get_recs st pre, get_recs st post with Some xs, Some ys => Some (xs ++ ys) | _, _ => None end.
+Proof.
+  induction pre as [|a pre IH]; intros post; cbn [app get_recs].
+  - destruct (get_recs st post); reflexivity.
+  - rewrite IH. destruct (get st a); try reflexivity.
+    destruct (get_recs st pre), (get_recs st post); reflexivity.
+Qed.
+
+(* Sum over records of TWO lists.  `pre` = the registers before the first foreign record: records
+   of list t1 and constants (at least one of t1); register b holds a record of another list t2;
+   `post` = any further records.  The call panics, writes no register, and leaves on list t1
+   exactly the entries that summing `pre` alone appends (the partial sums computed before the
+   assertion failed stay on the list); no other list changes. *)
+Theorem cross_tape_sum (st : state) dst pre b post xs y ys t1 t2 r :
+  get_recs st pre = Some xs -> get st b = ORec y -> get_recs st post = Some ys ->
+  sum_hist xs = Some t1 -> Forall (fun x => r_hist x = None \/ r_hist x = Some t1) xs ->
+  r_hist y = Some t2 -> t1 <> t2 ->
+  step ops st (TSum dst (pre ++ b :: post)) = Some r ->
+  exists stp z, step ops st (TSum dst pre) = Some (stp, Ok (VRec z)) /\ r_hist z = Some t1 /\
+    r = (mkState (tapes stp) (regs st), Panic).
+Proof.
+  intros Gp Gb Gq Hh Hx Hy Hne. cbn [step]. rewrite get_recs_app, Gp. cbn [get_recs]. rewrite Gb, Gq.
+  unfold sum_on. rewrite sum_hist_app, Hh. cbn [first_hist].
+  destruct (tape_of st t1) as [tp|]; [|discriminate].
+  destruct (sum_fold_same_ok t1 xs tp (rec_constant (nzero ops)) (or_introl eq_refl) Hx) as (tp1 & z & Ez).
+  rewrite sum_fold_app, Ez. cbn [sum_fold].
+  destruct (sum_fold_fresh _ _ _ _ _ Ez) as (suf & _ & _ & _ & Hz). destruct (Hz z eq_refl) as (Hzh & _).
+  cbn [rec_constant r_hist first_hist] in Hzh. rewrite Hh in Hzh.
+  rewrite (sum_step_cross tp1 z y t1 t2 Hzh Hy Hne). cbn [fst snd sum_finish].
+  intros E; inversion E; subst. eexists _, z. split; [reflexivity|]. split; [exact Hzh|reflexivity].
+Qed.
+
+(* WITHOUT assumptions on the order: if two of the summed registers hold records of two different
+   lists, the sum never completes and never writes a register *)
+Theorem cross_tape_sum_never_ok (st : state) dst rs a b t1 t2 st' v :
+  In a rs -> In b rs -> obj_hist (get st a) = Some t1 -> obj_hist (get st b) = Some t2 -> t1 <> t2 ->
+  step ops st (TSum dst rs) = Some (st', v) -> regs st' = regs st /\ (v = Panic \/ v = Err (SZ 9%Z)).
+Proof.
+  intros Ia Ib Ha Hb Hne. cbn [step]. destruct (get_recs st rs) as [xs|] eqn:Eg.
+  - assert (K : forall c t, In c rs -> obj_hist (get st c) = Some t -> exists x, In x xs /\ r_hist x = Some t).
+    { clear - Eg. revert xs Eg. induction rs as [|q rs IH]; intros xs Eg c t Hc Hh; [destruct Hc|].
+      cbn [get_recs] in Eg. destruct (get st q) as [xq| |] eqn:Eq; try discriminate.
+      destruct (get_recs st rs) as [l|]; [|discriminate]. inversion Eg; subst.
+      destruct Hc as [->|Hc].
+      - rewrite Eq in Hh. exists xq. split; [left; reflexivity|exact Hh].
+      - destruct (IH l eq_refl c t Hc Hh) as (x & Hx & Hxh). exists x. split; [right; exact Hx|exact Hxh]. }
+    destruct (K a t1 Ia Ha) as (xa & Ixa & Hxa). destruct (K b t2 Ib Hb) as (xb & Ixb & Hxb).
+    unfold sum_on.
+    assert (NOK : forall tp tp' z, sum_fold ops tp (rec_constant (nzero ops)) xs <> (tp', Ok z)).
+    { intros tp tp' z E. destruct (sum_fold_ok_hists _ _ _ _ _ E) as [_ F]. rewrite Forall_forall in F.
+      destruct (F xa Ixa) as [Q|Q]; [congruence|]. destruct (F xb Ixb) as [Q2|Q2]; congruence. }
+    assert (NERR : forall tp e, snd (sum_fold ops tp (rec_constant (nzero ops)) xs) <> Err e).
+    { intros tp e E. destruct (sum_fold ops tp (rec_constant (nzero ops)) xs) as [tp' r] eqn:Ef.
+      destruct (sum_fold_fresh _ _ _ _ _ Ef) as (_ & _ & _ & Ne & _). cbn in E. eapply Ne; eauto. }
+    destruct (sum_hist xs) as [t|].
+    + destruct (tape_of st t) as [tp|]; [|discriminate].
+      destruct (sum_fold ops tp (rec_constant (nzero ops)) xs) as [tp' [z|e|]] eqn:Ef; cbn [fst snd sum_finish].
+      * exfalso. eapply NOK; eauto.
+      * exfalso. apply (NERR tp e). rewrite Ef. reflexivity.
+      * intros E; inversion E; subst. auto.
+    + destruct (sum_fold ops [] (rec_constant (nzero ops)) xs) as [tp' [z|e|]] eqn:Ef; cbn [fst snd sum_finish].
+      * exfalso. eapply NOK; eauto.
+      * exfalso. apply (NERR [] e). rewrite Ef. reflexivity.
+      * intros E; inversion E; subst. auto.
+  - intros E; inversion E; subst. auto.
+Qed.
+
 (* ------------------------------------------------------------------ derivative vectors *)
 Lemma derivs_checked_length (tp : tape) out d : derivs_checked ops tp out = Ok d -> length d = length tp.
 Proof.
